@@ -96,7 +96,7 @@ Definition make_x_from_rich (fmt : pixfmt) (c : cursor) : option cursor :=
     | None => None
     | Some rowsb =>
       Some (mkcur (cw c) (ch c) (cxhot c) (cyhot c) (Some (concat rowsb)) (cmask c) (crich c) (calpha c)
-                  (cpremult c) fore' (cback c))
+                  (cpremult c) fore' (cback c) (cderived c))
     end.
 
 (* ------------------------------------------------------------------ wire helpers *)
@@ -472,7 +472,7 @@ Fixpoint pump_rounds (fuel : nat) (fixed v_empty : bool) (fmt : pixfmt) (hook : 
 (* the library's built-in cursor (main.c: myCursor), which every new screen starts with *)
 Definition default_cursor : cursor :=
   mkcur 8 7 3 3 (Some [0; 66; 36; 24; 36; 66; 0]) [231; 231; 126; 60; 126; 231; 231] None None false
-        (0, 0, 0) (65535, 65535, 65535).
+        (0, 0, 0) (65535, 65535, 65535) false.
 
 Fixpoint le_value (bytes : list Z) : Z :=
   match bytes with [] => 0 | b :: t => b + 256 * le_value t end.
@@ -499,7 +499,39 @@ Definition use_shared (v_cache : bool) (tag : option Z) (fmt : pixfmt) (c : curs
   match tag, crich c with
   | Some bold, Some r =>
       if v_cache
-      then mkcur (cw c) (ch c) (cxhot c) (cyhot c) (csource c) (cmask c) None (calpha c) (cpremult c) (cfore c) (cback c)
+      then mkcur (cw c) (ch c) (cxhot c) (cyhot c) (csource c) (cmask c) None (calpha c) (cpremult c) (cfore c) (cback c) false
       else if bold =? bpp fmt then c else set_rich c (regroup bold (bpp fmt) r)
   | _, _ => c
   end.
+
+(* ------------------------------------------------------------------ rfbNewFramebuffer *)
+(* rfbInitServerFormat(bitsPerSample) on a little-endian host *)
+Definition init_format (bppv bps : Z) : pixfmt :=
+  if bppv =? 1 then mkfmt 1 7 7 3 0 3 6
+  else let m := 2 ^ bps - 1 in mkfmt bppv m m m 0 bps (2 * bps).
+
+Definition fmt_eqb (a b : pixfmt) : bool :=
+  (bpp a =? bpp b) && (rmax a =? rmax b) && (gmax a =? gmax b) && (bmax a =? bmax b) &&
+  (rshift a =? rshift b) && (gshift a =? gshift b) && (bshift a =? bshift b).
+
+Definition drop_rich (c : cursor) : cursor :=
+  mkcur (cw c) (ch c) (cxhot c) (cyhot c) (csource c) (cmask c) None (calpha c) (cpremult c) (cfore c) (cback c) false.
+
+(* the cursor-related part of rfbNewFramebuffer (since /repo commit 02b132c): when serverFormat changes,
+   a rich form the library derived from the X cursor is dropped (it is in the old pixel format) *)
+Definition newfb_cursor (fold fnew : pixfmt) (oc : option cursor) : option cursor :=
+  match oc with
+  | None => None
+  | Some c =>
+    if negb (fmt_eqb fold fnew) &&
+       (match csource c with Some _ => true | None => false end) &&
+       (match crich c with Some _ => true | None => false end) && cderived c
+    then Some (drop_rich c) else Some c
+  end.
+
+(* rfbNewFramebuffer with the same size: new pixels, pointer position clamped to the screen, every
+   client has everything modified *)
+Definition new_framebuffer (fold fnew : pixfmt) (s : screen) (cls : list client) (f : fb) : screen * list client :=
+  (mkscr f (newfb_cursor fold fnew (scur s))
+         (if sx s >=? fw f then fw f - 1 else sx s) (if sy s >=? fh f then fh f - 1 else sy s) (subuf s),
+   map (fun cl => set_modif cl (rgn_rect 0 0 (fw f) (fh f))) cls).
